@@ -261,7 +261,26 @@ def gen_case(rng, tier, ctx, i):
     r = rng.random()
     if r < 0.25:
         return {"route": "cicJE", "rule": gen_cicje(rng)}
-    if r < 0.6:
+    if r < 0.33:
+        # two different sub-formulas that receive the same generated id (their sorted child ids concatenate identically)
+        # as arguments of one connective
+        A, B = rng.choice([(["a", "bc"], ["ab", "c"]), (["1", "22"], ["12", "2"]), (["a", "b", "cd"], ["a", "bc", "d"]), (["x", "yz"], ["xy", "z"])])
+        k = rng.choice(["Any", "All", "Xor", "AtLeast", "AtMost"])
+        mk = lambda ids: dict({"k": k, "id": None, "args": [{"k": "var", "id": i, "b": [0, 1]} for i in ids]},
+                              **({"value": v} if k in ("AtLeast", "AtMost") else {}))
+        v = rng.randint(1, 2)
+        top = rng.choice(["All", "Any", "Xor", "XNor", "AtLeast", "AtMost", "Imply"])
+        args = [mk(A), mk(B)]
+        if top != "Imply" and rng.random() < 0.4:
+            args.append({"k": "var", "id": "q", "b": [0, 1]})
+        rec = {"k": top, "id": rng.choice([None, "T"]), "args": args}
+        if top in ("AtLeast", "AtMost"):
+            rec["value"] = rng.randint(0, len(args))
+        if rng.random() < 0.3:
+            rec = {"k": rng.choice(["Not", "Any", "All"]), "id": None, "args": [rec] if rng.random() < 0.5 else [rec, {"k": "var", "id": "p", "b": [0, 1]}]}
+            if rec["k"] == "Not":
+                rec["args"] = rec["args"][:1]
+    elif r < 0.6:
         rec = next_sweep(i, ctx.seed)
     else:
         o = recipes.Opts(depth=rng.choice([2, 3, 4]), maxfan=rng.choice([3, 3, 5, 6]), nleaf=rng.choice([3, 4, 6, 8]), p_int=0, p_share=0, p_copy=0.05,
